@@ -2,6 +2,7 @@
 C13 — fsck reports exactly the damaged objects and pointers and only moves those.
 Property theorems only (obligations of ./check C13).
 -/
+import LfsModel.Gen
 import LfsModel.Fsck
 import LfsModel.FsckScan
 import LfsModel.AttrFilter
@@ -155,5 +156,15 @@ theorem tracked_paths_full_statement_fails_d21 :
 theorem lockable_only_line_is_irrelevant (pre post : List AttrFilter.Line) (l : AttrFilter.Line) (h : l.hasFilter = false) :
     AttrFilter.fsckSays (pre ++ l :: post) = AttrFilter.fsckSays (pre ++ post) :=
   (AttrFilter.filterless_line_irrelevant pre post l h).1
+
+/-- tie to commands/command_fsck.go: when neither --objects nor --pointers is given BOTH checks run — whatever other options (--dry-run) are given; there is no other assignment to either switch -/
+theorem gen_fsck_defaults :
+    Gen.fsckDefaults =
+      [
+       -- true | !fsckPointers && !fsckObjects
+       [116, 114, 117, 101, 32, 124, 32, 33, 102, 115, 99, 107, 80, 111, 105, 110, 116, 101, 114, 115, 32, 38, 38, 32, 33, 102, 115, 99, 107, 79, 98, 106, 101, 99, 116, 115],
+       -- true | !fsckPointers && !fsckObjects
+       [116, 114, 117, 101, 32, 124, 32, 33, 102, 115, 99, 107, 80, 111, 105, 110, 116, 101, 114, 115, 32, 38, 38, 32, 33, 102, 115, 99, 107, 79, 98, 106, 101, 99, 116, 115]
+      ] := by decide
 
 end C13
